@@ -241,6 +241,31 @@ def run_one(ck, prog):
             oks = [b["id"] for b in d3f["blocks"] if b["id"] in c3.cfg.live_blocks() and any(s["k"] == "assign" and s["dst"]["l"] == 0 and s["rv"]["k"] == "agg" and s["rv"].get("variant") == "Ok" for s in b["stmts"])]
             r = c3.cfg.reachable_from(0, avoid=sites)
             ck.ob("C13.2", "dup3-success-only-after-syscall", bool(oks) and not [b for b in oks if b in r], fn=d3f["path"], detail="dup3 can report success without issuing DUP3")
+    # a step that fails is reported, not skipped: the result of every configured step (dup2, chdir, setuid, setgid, setpgid) reaches a `?`
+    # (or a match whose Err arm leaves with the error) - `.ok()`, `let _ =` or an Option-returning helper would let the child go on and
+    # exec with a stream, directory or identity it was not configured with while spawn reports Ok
+    PASS = ("Result::<T, E>::map_err", "Result::<T, E>::map", "convert::Into::into", "convert::From::from")
+    for name in STEP_ORDER[:5]:
+        for (c2, bb, ob) in steps[name]:
+            def is_res(x, depth=0):
+                x = strip_casts(x)
+                if not isinstance(x, tuple) or not x or depth > 6:
+                    return False
+                if x[0] == "call" and x[3] == bb:
+                    return True
+                if x[0] == "call" and (x[1] or "").endswith(PASS) and x[2]:
+                    return is_res(x[2][0], depth + 1)
+                if x[0] == "ref":
+                    return is_res(x[2], depth + 1)
+                return False
+            propagated = any(is_res(c2.args(b2)[0]) for b2, t2 in c2.cfg.calls(lambda t2: (t2.get("callee") or "").endswith("Try::branch")))
+            if not propagated:
+                bad_edges = [e for sb in c2.cfg.live_blocks() if c2.cfg.term(sb)["k"] == "switch" for e in c2.cfg.succ[sb] for f in c2.edge_facts(e) if f[0] == "variant" and f[2] == "Err" and is_res(f[1])]
+                oks = {b["id"] for b in c2.fn["blocks"] if any(st["k"] == "assign" and st["dst"]["l"] == 0 and not st["dst"].get("p") and st["rv"]["k"] == "agg" and st["rv"].get("variant") == "Ok" for st in b["stmts"])}
+                later = {b2 for nm in STEP_ORDER for (c3, b2, o3) in steps[nm] if c3 is c2 and b2 != bb}
+                propagated = bool(bad_edges) and not any(c2.cfg.reachable_from(e.dst) & (oks | later) for e in bad_edges)
+            ck.ob("C13.2", f"step-failure-is-reported|{name.split('::')[-1]}|{c2.site(bb)}", propagated, fn=c2.path, site=c2.site(bb),
+                  detail=f"the result of `{name.split('::')[-1]}` in the child is not propagated: when it fails the child carries on and execs although the configuration was not applied")
     # closures: the loop runs over do_spawn's `closures`
     for (c2, bb, ob) in steps["tiny_std::process::PreExec::run"]:
         ck.ob("C13.2", "closures-run-in-loop", c2.cfg.in_cycle(bb), fn=c2.path, site=c2.site(bb), detail="pre-exec closures must all be run (loop over the slice)")
